@@ -12,6 +12,7 @@ package frame
 
 //@ type FrameV1
 //@   invariant layout [C02,C13,C17]: self.data != nil ==> layout(self.data, self.messageIndex, self.authIndex, self.appendixIndex)
+//@   invariant recvlink-not-typed-nil [C13]: self.recvLink != nil ==> nonnil(self.recvLink)
 //@   invariant offset-range [C13]: self.data != nil ==> 0 <= self.psDataOffset && self.psDataOffset <= 65536
 //@   invariant pooled [C17]: self.data != nil && self.pooledSlice != nil ==> base(self.data) == base(self.pooledSlice) && self.psDataOffset >= 0 && off(self.data) == off(self.pooledSlice) + self.psDataOffset && len(self.pooledSlice) == cap(self.pooledSlice) && self.psDataOffset + cap(self.data) <= len(self.pooledSlice)
 
@@ -66,7 +67,7 @@ package frame
 //@ func FrameV1.ReturnToPool
 //@   option noinv
 //@   requires f.builder == nil || f.dblReturnCheck == 0
-//@   ensures released [C13,C17]: old(f.builder) != nil ==> f.dblReturnCheck == 1 && f.data == nil && f.pooledSlice == nil
+//@   ensures released [C13,C17]: old(f.builder) != nil ==> f.dblReturnCheck == 1 && f.data == nil && f.pooledSlice == nil && f.recvLink == nil
 
 //@ pred live(f *FrameV1) = f != nil && f.data != nil
 
@@ -122,7 +123,7 @@ package frame
 //@   requires len(switchLabels) <= 65536 && len(data) <= 65536 && len(appendixData) <= 65536
 //@   requires f.pooledSlice != nil ==> base(switchLabels) != base(f.pooledSlice) && base(data) != base(f.pooledSlice) && base(appendixData) != base(f.pooledSlice)
 //@   ensures live [C17]: result == nil ==> f.data != nil && layout(f.data, f.messageIndex, f.authIndex, f.appendixIndex)
-//@   ensures buffer [C17]: result == nil ==> f.pooledSlice != nil && base(f.data) == base(f.pooledSlice) && (base(f.pooledSlice) == old(base(f.pooledSlice)) || fresh(base(f.pooledSlice)))
+//@   ensures buffer [C17]: result == nil ==> f.pooledSlice != nil && base(f.data) == base(f.pooledSlice) && (base(f.pooledSlice) == old(base(f.pooledSlice)) || fresh(base(f.pooledSlice))) && 0 <= f.psDataOffset && f.psDataOffset <= 100 && off(f.data) == off(f.pooledSlice) + f.psDataOffset && len(f.pooledSlice) == cap(f.pooledSlice) && f.psDataOffset + cap(f.data) <= len(f.pooledSlice)
 //@   ensures link-reset [C17]: result == nil ==> f.recvLink == nil
 //@   ensures addresses [C02,C17]: result == nil ==> f.src == src && f.dst == dst && f.data[4] == uint8(msgType) && f.data[1] == 32 && f.data[2] == 0
 //@   ensures payload [C02,C17]: result == nil ==> f.messageIndex == 49 + len(switchLabels) && f.authIndex == f.messageIndex + 2 + len(data) && (forall i int :: 0 <= i && i < len(data) ==> f.data[f.messageIndex+2+i] == data[i])
